@@ -274,12 +274,21 @@ def run_case(rng, tier, idx):
             if rng.random() < 0.5:
                 # pre-stressed frequencies (atype 3: k0 + kG0) under a sub-critical pre-load: still a definite pencil
                 N = np.array([-1.0, float(rng.choice([0.0, -0.5, 0.4])), float(rng.choice([0.0, 0.3]))])
-                p.Nxx, p.Nyy, p.Nxy = [float(x) for x in N]
+                shear_only = bool(rng.random() < 0.3)
+                if shear_only:
+                    N = np.array([0.0, 0.0, float(rng.choice([-1.0, 1.0]))])       # pure shear pre-load
+                unset = [bool(v == 0.0 and rng.random() < 0.5) for v in N]       # zero resultants assigned as 0.0 or left at None
+
+                def assign(vals):
+                    p.Nxx, p.Nyy, p.Nxy = [None if u else float(v) for u, v in zip(unset, vals)]
+                assign(N)
                 lam_pos = eig.ref_buckling(K, p.calc_kG0(silent=True))[0]
                 if lam_pos.size:
                     N = N * float(rng.uniform(0.1, 0.8)) * float(lam_pos.min())
-                    p.Nxx, p.Nyy, p.Nxy = [float(x) for x in N]
+                    assign(N)
                     atype = 3
+                    if shear_only:
+                        c.tag('preload:pure_shear')
                     c.desc['preload'] = [float(x) for x in N]
             if atype == 4:
                 # plain frequencies: whatever an earlier buckling / static / flutter run left on the object is no part of the pencil
